@@ -140,6 +140,10 @@ func genRangeFn(r *gen.Rand, top bool) exprCase {
 	if r.Chance(1, 8) {
 		fn = gen.Pick(r, otherFns)
 	}
+	subsec := top && r.Chance(1, 8) // sub-second ranges only as the outermost call (finding signature)
+	if subsec && r.Chance(1, 2) {
+		fn = "rate"
+	}
 	metric := ""
 	switch fn {
 	case "rate", "increase", "irate", "resets":
@@ -148,7 +152,7 @@ func genRangeFn(r *gen.Rand, top bool) exprCase {
 		}
 	}
 	sel := genSel(r, metric)
-	rg := genRangeMs(r, top && r.Chance(1, 8)) // sub-second ranges only as the outermost call (finding signature)
+	rg := genRangeMs(r, subsec)
 	e := exprCase{Form: "rangefn", Sel: sel, Fn: fn, RangeMs: rg, Modelled: isModelledFn(fn)}
 	e.Expr = fmt.Sprintf("%s(%s)", fn, sel.text(rg))
 	return e
